@@ -11,11 +11,17 @@ From Verif Require Import Base.Wrap.
 Import ListNotations.
 Local Open Scope Z_scope.
 
-(* the host of a host:port: the bytes before the first ':' (58), the whole string if none *)
+(* the host of a host:port: the bytes before the LAST ':' (58) -- the one in front of the port, so
+   that a bracketed IPv6 host:port "[::1]:4040" has host "[::1]" --, the whole string if none *)
+Fixpoint has_colon (l : list Z) : bool :=
+  match l with
+  | [] => false
+  | c :: r => orb (c =? 58) (has_colon r)
+  end.
 Fixpoint host_of (hp : list Z) : list Z :=
   match hp with
   | [] => []
-  | c :: r => if c =? 58 then [] else c :: host_of r
+  | c :: r => if c =? 58 then (if has_colon r then c :: host_of r else []) else c :: host_of r
   end.
 
 Definition tried (prev : list (list Z)) (s : list Z) : bool := existsb (bytes_eqb s) prev.
